@@ -603,6 +603,9 @@ def run(rep, tier):
         # on-demand / lazy keys are decoded only when the skipper reports an escape (shared with C10)
         from . import c10
         c10.clause_escape_flag(facts, rep, nss)
+        # 'as an on-demand key': where the key literal ends is decided by the escape scanner (carry hand-over and bit trick)
+        c10.clause_escape_carry(facts, rep, nss)
+        c10.clause_escaped_bits(facts, rep, tier)
         # 'GetParseError() in {UnEscaped, EscapedFormat, EscapedUnicode}': the class set by the string scanner is kept (shared with C01)
         from . import c01 as _c01
         _c01.clause_first_error(facts, rep)
